@@ -5,12 +5,18 @@ The REAL `PowerDistributingActor` is driven on a virtual-time loop with a probe 
 distribution finish normally or by raising / let virtual time pass), with or without yielding to the event
 loop between actions, so that arrivals overlap, overwrite each other and race with completion callbacks.
 
+A request is a `Request` OBJECT: the script gives each one an identity `r` and its fields (`p` W, `adj` =
+adjust_power, component set = its group); different requests may ask for the same power or be equal in every
+field.  "The request that was processed" is what the probe's `distribute_power` received: which object (by `is`,
+never by content) and the fields read off it.
+
 Oracle (from what the probe and the observed receiver saw; independent of the Lean model):
   mutex       : never two `distribute_power` calls of one group between enter and exit;
   latest-wins : per group, the calls entered are exactly: a request that arrived while nothing of the group
                 was in flight, and — at each completion, ok or exception alike — the most recent request that
                 arrived since the in-flight one was started (nothing if none arrived); each at the virtual
-                instant of its cause (immediately);
+                instant of its cause (immediately).  "Exactly" = the same request object, carrying the
+                fields (power, adjust_power) it was sent with — whatever the other waiting requests ask for;
   applied     : once everything has finished, the last request that arrived for each group is the last one
                 processed, and the actor holds no task and no pending request;
   subsequence : the processed requests of a group are a subsequence of its arrivals;
@@ -30,15 +36,20 @@ from . import distributor_gen as g
 from .common import Ctx, python_flags
 
 RULE = ("schedules of 3-14 send/finish/sleep actions over 1-3 component groups (incl. overlapping sets), each "
-        "action with or without yielding to the loop, instant/slow/failing completions; non-trivial = some request "
-        "arrived while another of its group was in flight; thorough adds ALL admissible event sequences of length "
-        "7 over 2 groups and of length 5 over 3 groups (every prefix is checked on the way); distinct by canonical JSON hash")
+        "action with or without yielding to the loop, instant/slow/failing completions; every request is an object "
+        "with an identity and fields (power from a 5-value pool or repeated from the previous request of the group, "
+        "adjust_power), so waiting requests of equal power / equal content but different identity are frequent; "
+        "non-trivial = some request arrived while another of its group was in flight; thorough adds ALL admissible "
+        "event sequences of length 7 over 2 groups and of length 5 over 3 groups (every prefix is checked on the way; "
+        "fields drawn from 2 powers x 2 flags); distinct by canonical JSON hash")
 
 
 def oracle(ctx: Ctx, script: dict, obs: dict) -> set[str]:
     tags: set[str] = set()
     n = len(script["groups"])
     log = obs["log"]
+    # the requests as the script created them: identity -> (group, power, adjust_power)
+    sent = {a["r"]: (a["g"], g.send_power(a), g.send_adjust(a)) for a in script["actions"] if a["a"] == "send"}
     inflight: list[int | None] = [None] * n
     waiting: list[list[int]] = [[] for _ in range(n)]
     expected: list[list[tuple[int, int]]] = [[] for _ in range(n)]  # (request, time of its cause)
@@ -49,21 +60,34 @@ def oracle(ctx: Ctx, script: dict, obs: dict) -> set[str]:
     def bad(clause: str, why: str, i: int) -> None:
         ctx.violation(clause, script, {"why": why, "at": i, "log": log})
 
+    def same_object_and_fields(kind: str, i: int, grp: int, r: int, p: int, adj: bool) -> None:
+        if r not in sent:
+            bad("latest-wins", f"group {grp}: {kind} of a request object that was never sent "
+                               f"(power {p}, adjust_power {adj})", i)
+        elif sent[r] != (grp, p, adj):
+            bad("latest-wins", f"group {grp}: {kind} of request {r} with (group, power, adjust_power) = "
+                               f"{(grp, p, adj)}, it was sent as {sent[r]}", i)
+
     for i, e in enumerate(log):
         kind, grp, r = e[0], e[1], e[2]
         t = e[-1]
         if kind == "arrive":
+            same_object_and_fields("arrival", i, grp, r, e[3], e[4])
             arrivals[grp].append(r)
             if inflight[grp] is None:
                 inflight[grp] = r
                 expected[grp].append((r, t))
             else:
+                for w in waiting[grp]:
+                    if w in sent and sent[w][1] == e[3]:
+                        tags.add("equal-content-waiting" if sent[w][2] == e[4] else "equal-power-other-flag-waiting")
                 waiting[grp].append(r)
                 tags.add("coalesced" if len(waiting[grp]) > 1 else "waited")
         elif kind == "enter":
             running[grp] += 1
             if running[grp] > 1:
                 bad("mutex", f"group {grp}: request {r} entered while another one is being processed", i)
+            same_object_and_fields("processing", i, grp, r, e[3], e[4])
             enters[grp].append((r, t))
         elif kind == "exit":
             running[grp] -= 1
@@ -79,10 +103,14 @@ def oracle(ctx: Ctx, script: dict, obs: dict) -> set[str]:
                 tags.add("pending-started-after-exc" if e[3] == "exc" else "pending-started-after-ok")
             else:
                 inflight[grp] = None
+
+    def show(rs: list[tuple[int, int]]) -> list:
+        return [[r, *sent.get(r, (None, None, None))[1:]] for r, _ in rs]
+
     for grp in range(n):
         if [r for r, _ in enters[grp]] != [r for r, _ in expected[grp]]:
-            bad("latest-wins", f"group {grp}: processed {[r for r, _ in enters[grp]]}, "
-                               f"the property requires {[r for r, _ in expected[grp]]}", len(log))
+            bad("latest-wins", f"group {grp}: processed [request, power, adjust_power] {show(enters[grp])}, "
+                               f"the property requires {show(expected[grp])}", len(log))
         elif any(te != tc for (_, te), (_, tc) in zip(enters[grp], expected[grp])):
             bad("latest-wins", f"group {grp}: a request was not started at the instant of its cause", len(log))
         if arrivals[grp] and (not enters[grp] or enters[grp][-1][0] != arrivals[grp][-1]):
